@@ -85,6 +85,8 @@ def lit(v):
 def _arg(a, env):
     if isinstance(a, tuple) and a and a[0] == "e":
         return ev(a[1], env)
+    if isinstance(a, tuple) and a and a[0] == "el":
+        return [ev(x, env) for x in a[1]]
     return lit(a)
 
 
@@ -136,6 +138,25 @@ def ev(e, env):
             elif meta is not None:
                 kwargs["meta"] = (getattr(base, "name", None) if kwargs.get("axis") != 1 else None, meta)
         return getattr(base, e[2])(FN[e[3]], **kwargs)
+    if t == "attr":
+        return getattr(ev(e[1], env), e[2])
+    if t == "lib":
+        mod = dfh.dd if env["dask"] else pd
+        return getattr(mod, e[1])(*[_arg(a, env) for a in e[2]], **{k: _arg(v, env) for k, v in e[3]})
+    if t == "daskonly":  # repartition / shuffle / persist-like no-ops: the pandas reference is the identity
+        base = ev(e[1], env)
+        if not env["dask"]:
+            return base
+        return getattr(base, e[2])(*[_arg(a, env) for a in e[3]], **{k: _arg(v, env) for k, v in e[4]})
+    if t == "head":  # head / tail, lazily on the dask side
+        base = ev(e[1], env)
+        if not env["dask"]:
+            return getattr(base, e[2])(e[3])
+        return base.head(e[3], npartitions=-1, compute=False) if e[2] == "head" else base.tail(e[3], compute=False)
+    if t == "locs":
+        return ev(e[1], env).loc[lit(e[2]) : lit(e[3])]
+    if t == "iloc":
+        return ev(e[1], env).iloc[:, e[2] : e[3]]
     raise ValueError(f"unknown expression head {t!r}")
 
 
@@ -198,7 +219,43 @@ def sig(step):
         return f"{step[2]}.getitem"
     if t == "udf":
         return f"{step[2]}-udf"
+    if t in ("attr", "lib", "daskonly", "head"):
+        return f"{step[2] if t != 'lib' else step[1]}"
     return t
+
+
+def chain_sig(step):
+    """name of a chained call such as x.groupby(..).a.agg(..) / x.rolling(..).sum(): 'groupby.col.agg'"""
+    names = []
+    e = step
+    while isinstance(e, tuple) and e and e[0] in ("call", "col", "cols", "attr", "acc", "udf", "daskonly", "head", "item", "un", "bin") and e != X:
+        if e[0] == "call":
+            m = e[2]
+            if m in ("agg", "aggregate", "transform") and e[3]:
+                a = e[3][0]
+                m += "[" + (a if isinstance(a, str) else ("list" if a[0] == "l" else "dict")) + "]"
+            elif m in ("agg", "aggregate"):
+                m += "[named]"
+            names.append(m)
+            e = e[1]
+        elif e[0] in ("col", "cols"):
+            names.append("col" if e[0] == "col" else "cols")
+            e = e[1]
+        elif e[0] in ("attr", "daskonly", "head"):
+            names.append(e[2])
+            e = e[1]
+        elif e[0] == "acc":
+            names.append(f"{e[2]}.{e[3]}")
+            e = e[1]
+        elif e[0] == "udf":
+            names.append(f"{e[2]}-udf")
+            e = e[1]
+        else:
+            names.append(sig(e))
+            break
+    if len(names) <= 1:
+        return sig(step)
+    return ".".join(reversed(names))
 
 
 # ---------------------------------------------------------------------------- column kinds
@@ -491,7 +548,7 @@ def _dedup(seq):
     return out
 
 
-def enumerate_programs(root, levels, first_filter=None, counters=None):
+def enumerate_programs(root, levels, first_filter=None, counters=None, steps=None):
     """all programs whose i-th step is drawn from steps_for(<pandas result of the prefix>, levels[i]).  A step on which
     pandas raises is dropped (the reference rejects the input: inapplicable).  Yields (program, pandas intermediates).
     first_filter(i) selects the indices of the first step (sharding)."""
@@ -501,7 +558,7 @@ def enumerate_programs(root, levels, first_filter=None, counters=None):
     def rec(prefix, xs, depth):
         if depth == len(levels):
             return
-        for i, step in enumerate(steps_for(xs[-1], levels[depth])):
+        for i, step in enumerate((steps or steps_for)(xs[-1], levels[depth])):
             if depth == 0 and first_filter is not None and not first_filter(i):
                 continue
             env = {"x": xs[-1], "root": root, "root2": None, "dask": False}
@@ -596,3 +653,149 @@ def summary(p):
     if isinstance(p, pd.Index):
         return ("I", len(p), str(p.dtype))
     return ("O", type(p).__name__)
+
+
+# ---------------------------------------------------------------------------- extended alphabets (C42 / C43): reductions,
+# groupby, joins/concat, sort/shuffle/dedup, windows -- the operation families of C37-C40 and C46
+def attr(base, name):
+    return ("attr", base, name)
+
+
+def daskonly(base, method, *args, **kwargs):
+    return ("daskonly", base, method, tuple(args), tuple(sorted(kwargs.items())))
+
+
+def lib(fname, *args, **kwargs):
+    return ("lib", fname, tuple(args), tuple(sorted(kwargs.items())))
+
+
+def D(*pairs):
+    return ("d", tuple(pairs))
+
+
+def LS(*items):
+    return ("l", tuple(items))
+
+
+def frame_ext_steps(p, level="full"):
+    cols = list(p.columns)
+    if not p.columns.is_unique or not all(isinstance(c, str) for c in cols):
+        return []
+    kinds = {c: kind_of(p[c].dtype) for c in cols}
+    num = [c for c in cols if kinds[c] in NUMERIC]
+    other = [c for c in cols if kinds[c] not in NUMERIC]
+    out, core = [], []
+    # ---- reductions (C37)
+    for m in ("sum", "mean", "min", "max", "count", "std", "var", "prod", "any", "all", "nunique", "median", "sem", "idxmax", "idxmin"):
+        out.append(call(X, m))
+    for m in ("sum", "mean", "std", "var", "min", "max", "median", "idxmax", "skew", "kurtosis"):
+        out.append(call(X, m, numeric_only=True))
+    for m in ("sum", "mean", "max", "count", "any", "all"):
+        out.append(call(X, m, axis=1))
+    out += [call(X, "sum", axis=1, numeric_only=True), call(X, "describe"), call(X, "quantile", 0.5, numeric_only=True),
+            call(X, "quantile", LS(0.25, 0.75), numeric_only=True), call(X, "mode"), call(X, "cov", numeric_only=True), call(X, "corr", numeric_only=True),
+            call(X, "memory_usage"), attr(X, "size"), attr(X, "index"), call(X, "sum", skipna=False), call(X, "count", axis=1)]
+    core += [call(X, "sum", numeric_only=True), attr(X, "index")]
+    if num:
+        n0 = num[0]
+        n1 = num[1] if len(num) > 1 else num[0]
+        out += [call(X, "nlargest", 2, n0), call(X, "nsmallest", 2, n0)]
+        # ---- sort / shuffle / dedup (C40)
+        srt = [call(X, "sort_values", n0), call(X, "sort_values", LS(n1, n0), ascending=False), call(X, "set_index", n0), call(X, "set_index", n1),
+               call(X, "set_index", n0, drop=False), call(X, "reset_index"), call(X, "reset_index", drop=True), call(X, "drop_duplicates"),
+               call(X, "drop_duplicates", subset=LS(n1)), call(X, "drop_duplicates", subset=LS(n1), keep="last"),
+               daskonly(X, "shuffle", n1), daskonly(X, "repartition", npartitions=2), daskonly(X, "repartition", npartitions=5)]
+        for c in other:
+            srt += [call(X, "sort_values", c), call(X, "set_index", c)]
+        out += srt
+        core += [call(X, "set_index", n0), call(X, "reset_index"), call(X, "sort_values", n0), daskonly(X, "repartition", npartitions=2)]
+        # ---- groupby (C38)
+        if n1 != n0:
+            G = call(X, "groupby", n1)
+            gb = [call(G, m) for m in ("sum", "mean", "count", "size", "min", "max", "first", "last", "nunique", "var", "std", "median", "prod", "idxmax", "idxmin",
+                                       "cumsum", "cumcount", "cumprod", "shift", "ffill", "bfill")]
+            gb += [call(G, "sum", numeric_only=True), call(G, "mean", numeric_only=True), call(G, "agg", "sum"), call(G, "agg", LS("sum", "max")), call(G, "agg", D((n0, "sum"))),
+                   call(G, "agg", D((n0, LS("min", "max")))), call(G, "agg", total=("tup", (n0, "sum")), hi=("tup", (n0, "max"))),
+                   call(G, "transform", "sum"), call(G, "cov"), call(G, "corr")]
+            GS = ("col", G, n0)
+            gb += [call(GS, m) for m in ("sum", "mean", "count", "size", "nunique", "value_counts", "min", "max", "var", "std", "first", "last", "cumsum", "idxmax", "unique", "median")]
+            gb += [call(GS, "agg", LS("min", "max")), call(GS, "agg", "sum"), call(GS, "transform", "sum"), call(GS, "shift"), call(("cols", G, (n0,)), "sum")]
+            gb += [call(call(X, "groupby", LS(n1, n0)), "size"), call(call(X, "groupby", LS(n1, n0)), "sum", numeric_only=True), call(call(X, "groupby", n1, sort=False), "count"),
+                   call(call(X, "groupby", E(B("%", C(n1), L(2)))), "count"), call(call(X, "groupby", level=0), "count"), call(call(X, "groupby", n1, dropna=False), "count"),
+                   call(call(X, "groupby", n1, group_keys=False), "count")]
+            for c in other:
+                gb += [call(("col", G, c), "count"), call(("col", G, c), "first"), call(("col", G, c), "nunique"), call(("col", call(X, "groupby", c), n0), "sum"),
+                       call(call(X, "groupby", c), "count"), call(("col", call(X, "groupby", c, observed=False), n0), "sum"), call(call(X, "groupby", c, observed=True), "size")]
+            out += gb
+            core += [gb[0], call(GS, "count"), call(G, "agg", LS("sum", "max"))]
+            # ---- joins / concat (C39)
+            OTHER = call(("cols", X, (n1, n0)), "rename", columns=D((n0, "w")))
+            OW = ("cols", OTHER, ("w",))
+            jn = [call(X, "merge", E(OTHER), on=n1, how=h) for h in ("inner", "left", "right", "outer")]
+            jn += [call(X, "merge", E(OTHER), left_index=True, right_index=True), call(X, "merge", E(OTHER), left_on=n0, right_on="w"),
+                   call(X, "merge", E(OTHER), left_on=n0, right_index=True), call(X, "merge", E(X), on=LS(n1, n0), suffixes=("tup", ("_l", "_r"))),
+                   call(X, "merge", E(OTHER), on=n1, how="inner", indicator=True), call(X, "merge", E(X), how="cross") if False else call(X, "join", E(OW)),
+                   call(X, "join", E(OW), how="outer"), call(X, "join", E(OW), how="inner"),
+                   lib("concat", ("el", (X, X))), lib("concat", ("el", (X, OW)), axis=1), lib("concat", ("el", (X, ("cols", X, (n0,)))), join="inner"),
+                   lib("concat", ("el", (X, OTHER))), lib("concat", ("el", (C(n0), C(n1))), axis=1), lib("concat", ("el", (C(n0), C(n1)))),
+                   lib("merge_asof", E(call(X, "sort_values", n0)), E(call(OTHER, "sort_values", "w")), left_on=n0, right_on="w"),
+                   lib("merge", E(X), E(OTHER), on=n1)]
+            out += jn
+            core += [jn[0], lib("concat", ("el", (X, X)))]
+    # ---- windows (C46)
+    R = call(X, "rolling", 2)
+    win = [call(R, m) for m in ("sum", "mean", "max", "min", "count", "std", "var", "median")]
+    win += [call(call(X, "rolling", 3, min_periods=1), "sum"), call(call(X, "rolling", 3, center=True), "mean"), call(call(X, "rolling", 1), "sum"),
+            call(X, "cumsum"), call(X, "cumprod"), call(X, "cummax"), call(X, "cummin"), call(X, "shift", 1), call(X, "shift", -1), call(X, "shift", 2), call(X, "diff"),
+            call(X, "diff", 2), call(X, "ffill"), call(X, "bfill"), call(X, "ffill", limit=1), call(X, "pct_change"), call(call(X, "expanding"), "sum"),
+            call(call(X, "rolling", "2D"), "sum"), call(call(X, "rolling", "36h"), "count"), call(X, "shift", 1, freq="1D")]
+    out += win
+    core += [call(X, "cumsum"), call(X, "shift", 1)]
+    # ---- misc row-preserving / selecting operations
+    out += [call(X, "dropna"), call(X, "dropna", how="all"), call(X, "drop", columns=LS(cols[-1])), call(X, "select_dtypes", include="number"), call(X, "select_dtypes", exclude="number"),
+            call(X, "add_prefix", "p_"), call(X, "add_suffix", "_s"), call(X, "rename_axis", "ii"), call(X, "round", 1), call(X, "replace", 1, 100), call(X, "combine_first", E(X)),
+            call(X, "query", "a > 2"), call(X, "eval", "a + g"), call(X, "eval", "z = a + g"), ("locs", X, 1, 4), ("locs", X, ("ts", "2021-03-01 12:00"), ("ts", "2021-03-02 12:00")),
+            ("iloc", X, 0, 2), ("iloc", X, 1, None), ("head", X, "head", 2), ("head", X, "tail", 2), call(X, "melt"), call(X, "melt", id_vars=LS(cols[0])),
+            call(X, "sample", frac=0.5, random_state=1), call(X, "squeeze"), call(X, "copy"), call(X, "nunique", axis=1) if False else call(X, "isna"),
+            call(X, "explode", cols[-1]), call(X, "to_timestamp") if False else call(X, "abs"), call(X, "pipe", ("fn", "ident")), call(X, "align", E(X)) if False else call(X, "notnull")]
+    for c in other:
+        if kinds[c] == "cat" and num:
+            out += [call(X, "pivot_table", index=num[-1], columns=c, values=num[0], aggfunc="sum"), call(X, "pivot_table", index=num[-1], columns=c, values=num[0], aggfunc="mean")]
+        out += [call(X, "dropna", subset=LS(c))]
+    if level == "core":
+        return _dedup(core)
+    return _dedup(out)
+
+
+def series_ext_steps(p, level="full"):
+    k = kind_of(p.dtype)
+    out = [call(X, m) for m in ("sum", "mean", "min", "max", "count", "std", "var", "prod", "any", "all", "nunique", "median", "idxmax", "idxmin", "sem", "skew", "kurtosis", "mode")]
+    out += [call(X, "quantile", 0.5), call(X, "quantile", LS(0.25, 0.75)), call(X, "value_counts"), call(X, "value_counts", normalize=True), call(X, "value_counts", sort=False),
+            call(X, "value_counts", dropna=False), call(X, "unique"), call(X, "nlargest", 2), call(X, "nsmallest", 2), call(X, "drop_duplicates"), call(X, "dropna"), call(X, "describe"),
+            attr(X, "is_monotonic_increasing"), attr(X, "size"), attr(X, "index"), call(X, "autocorr"), call(X, "cov", E(X)), call(X, "corr", E(X)), call(X, "memory_usage"),
+            call(X, "sum", skipna=False), call(X, "count")]
+    R = call(X, "rolling", 2)
+    out += [call(R, m) for m in ("sum", "mean", "max", "count", "std")]
+    out += [call(call(X, "rolling", 3, min_periods=1), "sum"), call(X, "cumsum"), call(X, "cumprod"), call(X, "cummax"), call(X, "cummin"), call(X, "shift", 1), call(X, "shift", -1),
+            call(X, "diff"), call(X, "ffill"), call(X, "bfill"), call(X, "pct_change"),
+            call(X, "reset_index"), call(X, "reset_index", drop=True), call(X, "rename_axis", "ii"), call(X, "sort_values"), ("head", X, "head", 2), ("head", X, "tail", 2),
+            call(X, "round", 1), call(X, "replace", 1, 100), call(X, "combine_first", E(X)), call(call(X, "groupby", E(X)), "count"), call(call(X, "groupby", E(X)), "size"),
+            ("locs", X, 1, 4), daskonly(X, "repartition", npartitions=2), daskonly(X, "shuffle", E(X)) if False else call(X, "copy"), call(X, "explode"), call(X, "squeeze"),
+            call(X, "to_frame"), call(X, "sample", frac=0.5, random_state=1), call(X, "add_prefix", "p_"), call(X, "isna"), lib("to_numeric", E(X)), lib("to_datetime", E(X))]
+    core = [call(X, "sum"), call(X, "value_counts"), call(X, "cumsum"), call(X, "reset_index")]
+    if k in ("str", "cat", "dt"):
+        core = [call(X, "count"), call(X, "value_counts"), call(X, "reset_index"), call(X, "max")]
+    if level == "core":
+        return _dedup(core)
+    return _dedup(out)
+
+
+def ext_steps_for(p, level="full"):
+    """row-wise alphabet (C36) + the extended alphabet"""
+    if isinstance(p, pd.DataFrame):
+        if not p.columns.is_unique or isinstance(p.columns, pd.MultiIndex):
+            return []
+        return _dedup(frame_steps(p, level) + frame_ext_steps(p, level)) if all(isinstance(c, str) for c in p.columns) else []
+    if isinstance(p, pd.Series):
+        return _dedup(series_steps(p, level) + series_ext_steps(p, level))
+    return []
